@@ -35,7 +35,7 @@ fn guarded<R>(f: impl FnOnce() -> R) -> Result<R, String> {
 
 // ---- covering configuration alphabet ---------------------------------------------------------------
 /// (wide, depth, ss, full, matrix, transfer, primaries): every value of every dimension occurs.
-const YCFG: [(bool, u8, (u8, u8), bool, MC, TC, CP); 7] = [
+const YCFG: [(bool, u8, (u8, u8), bool, MC, TC, CP); 8] = [
     (false, 8, (0, 0), false, MC::BT709, TC::BT1886, CP::BT709),
     (true, 10, (1, 1), true, MC::BT2020NonConstantLuminance, TC::PerceptualQuantizer, CP::BT2020),
     (true, 16, (1, 0), false, MC::YCgCo, TC::HybridLogGamma, CP::Film),
@@ -44,14 +44,29 @@ const YCFG: [(bool, u8, (u8, u8), bool, MC, TC, CP); 7] = [
     (true, 12, (0, 1), true, MC::ST240M, TC::Logarithmic316, CP::ST428),
     // a matrix derived from the primaries (constant-luminance family)
     (true, 10, (0, 0), true, MC::ICtCp, TC::PerceptualQuantizer, CP::BT2020),
+    // unspecified transfer and primaries: resolved by the library at construction / conversion
+    (false, 8, (0, 0), false, MC::BT709, TC::Unspecified, CP::Unspecified),
 ];
-const RCFG: [(TC, CP); 6] = [
+/// What the stored config of an image built/converted with `ycfg(i)` must be (documented mpv rule;
+/// all images here are smaller than every threshold, and the only Unspecified entry has a BT.709 matrix).
+fn stored_cfg(i: usize) -> YuvConfig {
+    let mut c = ycfg(i);
+    if c.transfer_characteristics == TC::Unspecified {
+        c.transfer_characteristics = TC::BT1886;
+    }
+    if c.color_primaries == CP::Unspecified {
+        c.color_primaries = CP::BT709;
+    }
+    c
+}
+const RCFG: [(TC, CP); 7] = [
     (TC::BT1886, CP::BT709),
     (TC::PerceptualQuantizer, CP::BT2020),
     (TC::HybridLogGamma, CP::Film),
     (TC::Logarithmic100, CP::BT709),
     (TC::SRGB, CP::P3DCI),
     (TC::Linear, CP::ST428),
+    (TC::Unspecified, CP::Unspecified),
 ];
 fn ycfg(i: usize) -> YuvConfig {
     let c = YCFG[i];
@@ -94,6 +109,11 @@ enum Act {
     ToYuvRef(usize),
     Poke(usize, usize, usize),
     Rewrap,
+    /// two conversions chained on the *live* object (no re-wrapping through a constructor in
+    /// between): X -> Yuv(config) -> LinearRgb (false) or Xyb (true)
+    ViaYuv(usize, bool),
+    /// LinearRgb/Xyb -> Rgb(labels) -> LinearRgb, chained on the live Rgb
+    ViaRgb(usize),
 }
 
 fn bits(d: &[[f32; 3]]) -> Vec<[u32; 3]> {
@@ -122,9 +142,9 @@ fn build_yuv<T: Pixel>(w: usize, h: usize, ci: usize, planes: &[Vec<u16>; 3], pa
 
 fn yuv_body<T: Pixel>(y: &Yuv<T>, ci: usize, w: usize, h: usize) -> Body {
     use yuvxyb::CastFromPrimitive;
-    let cfg = ycfg(ci);
+    let cfg = stored_cfg(ci);
     if y.config() != cfg {
-        return Body::Invalid { what: format!("config changed: requested {cfg:?}, got {:?}", y.config()) };
+        return Body::Invalid { what: format!("stored config is {:?}, expected {cfg:?}", y.config()) };
     }
     if y.width() != w || y.height() != h {
         return Body::Invalid { what: format!("dims changed: {w}x{h} -> {}x{}", y.width(), y.height()) };
@@ -159,6 +179,22 @@ fn float_body(kind: &str, data: &[[f32; 3]], dw: usize, dh: usize, w: usize, h: 
         "xyb" => Body::Xyb { data: bits(data) },
         _ => Body::Hsl { data: bits(data) },
     }
+}
+
+fn via_yuv<T: Pixel>(y: Result<Yuv<T>, yuvxyb::ConversionError>, ci: usize, to_xyb: bool, w: usize, h: usize) -> Option<Body> {
+    let y = y.ok()?;
+    // run the second conversion on the live object first (a malformed intermediate may lead the
+    // library into undefined behaviour there: that is the finding to surface), then require the
+    // intermediate image itself to be well-formed
+    let out = if to_xyb {
+        Xyb::try_from(&y).ok().map(|r| float_body("xyb", r.data(), r.width(), r.height(), w, h, 0))
+    } else {
+        LinearRgb::try_from(&y).ok().map(|r| float_body("lin", r.data(), r.width(), r.height(), w, h, 0))
+    };
+    if let Body::Invalid { what } = yuv_body(&y, ci, w, h) {
+        return Some(Body::Invalid { what });
+    }
+    out
 }
 
 struct Seq {
@@ -250,6 +286,13 @@ impl Seq {
                             out
                         }
                         Act::Rewrap => Rgb::new(rgb.data().to_vec(), w, h, t, p).ok().map(|r| float_body("rgb", r.data(), r.width(), r.height(), w, h, *lab)),
+                        Act::ViaYuv(ci, x) => {
+                            if YCFG[*ci].0 {
+                                via_yuv(Yuv::<u16>::try_from((&rgb, ycfg(*ci))), *ci, *x, w, h)
+                            } else {
+                                via_yuv(Yuv::<u8>::try_from((&rgb, ycfg(*ci))), *ci, *x, w, h)
+                            }
+                        }
                         Act::Poke(i, c, v) => {
                             let mut r = rgb;
                             r.data_mut()[*i][*c] = f32::from_bits(POKES[*v]);
@@ -278,6 +321,23 @@ impl Seq {
                             }
                         }
                         Act::Rewrap => LinearRgb::new(lin.data().to_vec(), w, h).ok().map(|r| float_body("lin", r.data(), r.width(), r.height(), w, h, 0)),
+                        Act::ViaYuv(ci, x) => {
+                            if YCFG[*ci].0 {
+                                via_yuv(Yuv::<u16>::try_from((lin, ycfg(*ci))), *ci, *x, w, h)
+                            } else {
+                                via_yuv(Yuv::<u8>::try_from((lin, ycfg(*ci))), *ci, *x, w, h)
+                            }
+                        }
+                        Act::ViaRgb(l) => {
+                            let rgb = Rgb::try_from((lin, RCFG[*l].0, RCFG[*l].1)).ok()?;
+                            let bad_labels = rgb.transfer() == TC::Unspecified || rgb.primaries() == CP::Unspecified;
+                            let what = format!("Rgb labelled {:?}/{:?} after conversion", rgb.transfer(), rgb.primaries());
+                            let out = LinearRgb::try_from(rgb).ok().map(|r| float_body("lin", r.data(), r.width(), r.height(), w, h, 0));
+                            if bad_labels {
+                                return Some(Body::Invalid { what });
+                            }
+                            out
+                        }
                         Act::Poke(i, c, v) => {
                             let mut r = lin;
                             r.data_mut()[*i][*c] = f32::from_bits(POKES[*v]);
@@ -302,6 +362,17 @@ impl Seq {
                             }
                         }
                         Act::Rewrap => Xyb::new(xyb.data().to_vec(), w, h).ok().map(|r| float_body("xyb", r.data(), r.width(), r.height(), w, h, 0)),
+                        Act::ViaYuv(ci, x) => {
+                            if YCFG[*ci].0 {
+                                via_yuv(Yuv::<u16>::try_from((xyb, ycfg(*ci))), *ci, *x, w, h)
+                            } else {
+                                via_yuv(Yuv::<u8>::try_from((xyb, ycfg(*ci))), *ci, *x, w, h)
+                            }
+                        }
+                        Act::ViaRgb(l) => {
+                            let rgb = Rgb::try_from((xyb, RCFG[*l].0, RCFG[*l].1)).ok()?;
+                            LinearRgb::try_from(rgb).ok().map(|r| float_body("lin", r.data(), r.width(), r.height(), w, h, 0))
+                        }
                         Act::Poke(i, c, v) => {
                             let mut r = xyb;
                             r.data_mut()[*i][*c] = f32::from_bits(POKES[*v]);
@@ -375,6 +446,7 @@ impl Model for Seq {
                 for c in 0..YCFG.len() {
                     out.push(Act::ToYuv(c));
                     out.push(Act::ToYuvRef(c));
+                    out.push(Act::ViaYuv(c, c % 2 == 0));
                 }
                 pokes(out, data.len());
             }
@@ -382,9 +454,11 @@ impl Model for Seq {
                 out.extend([Act::ToXyb, Act::ToHsl, Act::Rewrap]);
                 for l in 0..RCFG.len() {
                     out.push(Act::ToRgbLab(l));
+                    out.push(Act::ViaRgb(l));
                 }
                 for c in 0..YCFG.len() {
                     out.push(Act::ToYuv(c));
+                    out.push(Act::ViaYuv(c, c % 2 == 1));
                 }
                 pokes(out, data.len());
             }
@@ -393,8 +467,10 @@ impl Model for Seq {
                 for l in 0..RCFG.len() {
                     out.push(Act::ToRgbLab(l));
                 }
+                out.push(Act::ViaRgb(RCFG.len() - 1));
                 for c in 0..YCFG.len() {
                     out.push(Act::ToYuv(c));
+                    out.push(Act::ViaYuv(c, false));
                 }
                 pokes(out, data.len());
             }
@@ -424,7 +500,7 @@ impl Model for Seq {
 fn inits(tier_thorough: bool) -> Vec<St> {
     let mut v = vec![];
     let code = |p: usize, i: usize, max: u32| (((p * 83 + i * 37 + 11) as u32) % (max + 1)) as u16;
-    for (ci, (w, h)) in [(0usize, (2u8, 2u8)), (1, (4, 4)), (2, (4, 2)), (3, (4, 4)), (4, (3, 3)), (5, (2, 4)), (6, (1, 3))] {
+    for (ci, (w, h)) in [(0usize, (2u8, 2u8)), (1, (4, 4)), (2, (4, 2)), (3, (4, 4)), (4, (3, 3)), (5, (2, 4)), (6, (1, 3)), (7, (2, 1))] {
         let c = ycfg(ci);
         let max = (1u32 << c.bit_depth) - 1;
         let (cw, ch) = ((w as usize) >> c.subsampling_x, (h as usize) >> c.subsampling_y);
@@ -462,8 +538,8 @@ fn inits(tier_thorough: bool) -> Vec<St> {
 }
 
 fn model(thorough: bool) -> Seq {
-    let d = std::env::var("SEQ_DEPTH").ok().and_then(|s| s.parse().ok()).unwrap_or(if thorough { 5 } else { 4 });
-    let v = std::env::var("SEQ_DEVS").ok().and_then(|s| s.parse().ok()).unwrap_or(if thorough { 2 } else { 1 });
+    let d = std::env::var("SEQ_DEPTH").ok().and_then(|s| s.parse().ok()).unwrap_or(if thorough { 4 } else { 3 });
+    let v = std::env::var("SEQ_DEVS").ok().and_then(|s| s.parse().ok()).unwrap_or(2);
     Seq { max_depth: d, max_devs: v, inits: inits(thorough) }
 }
 
@@ -490,9 +566,51 @@ fn replay_path(thorough: bool, init: usize, acts: &[String]) -> (bool, String) {
     }
 }
 
+/// Depth-first enumeration of every path from one initial state, writing the path to a journal
+/// file *before* each transition executes: if the process dies, the last line is the killing path.
+fn journal_dfs(thorough: bool, init: usize, journal: &str) {
+    use std::io::Write;
+    let m = model(thorough);
+    let mut f = std::io::BufWriter::new(std::fs::File::create(journal).expect("journal"));
+    let mut seen = std::collections::HashSet::new();
+    let mut stack: Vec<(St, Vec<String>)> = vec![(m.inits[init].clone(), vec![])];
+    while let Some((s, path)) = stack.pop() {
+        if !seen.insert(s.clone()) {
+            continue;
+        }
+        let mut acts = vec![];
+        m.actions(&s, &mut acts);
+        for a in acts {
+            let mut p2 = path.clone();
+            p2.push(act_str(&a));
+            writeln!(f, "{}", p2.join(";")).unwrap();
+            f.flush().unwrap();
+            if let Some(n) = m.next_state(&s, a) {
+                stack.push((n, p2));
+            }
+        }
+    }
+}
+
+fn run_child(args: &[&str]) -> (bool, bool, String) {
+    use std::os::unix::process::ExitStatusExt;
+    let exe = std::env::current_exe().unwrap();
+    let out = std::process::Command::new(exe).args(args).stdout(std::process::Stdio::null()).stderr(std::process::Stdio::piped()).output().expect("spawn");
+    let err = String::from_utf8_lossy(&out.stderr).to_string();
+    let tail: String = err.lines().rev().find(|l| !l.trim().is_empty()).unwrap_or("").chars().take(200).collect();
+    let sig = out.status.signal();
+    let resource = sig == Some(9) || err.contains("memory allocation of");
+    let died_ub = !out.status.success() && !resource && (sig.is_some() || err.contains("unsafe precondition"));
+    (out.status.success(), died_ub, format!("{}; stderr: {tail}", out.status))
+}
+
 fn main() {
     install_panic_hook();
     let args: Vec<String> = std::env::args().collect();
+    if args.len() >= 5 && args[1] == "journal" {
+        journal_dfs(args[2] == "thorough", args[3].parse().unwrap(), &args[4]);
+        return;
+    }
     if args.len() >= 3 && args[1] == "replay" {
         let v: Value = serde_json::from_str(&std::fs::read_to_string(&args[2]).expect("read")).expect("json");
         let case = if v.get("case").is_some() { &v["case"] } else { &v };
@@ -501,7 +619,49 @@ fn main() {
         println!("REPLAY violated={viol} :: {obs}");
         std::process::exit(if viol { 1 } else { 0 });
     }
-    if args.len() < 4 || args[1] != "run" {
+    if args.len() >= 4 && args[1] == "run" {
+        // run the exploration in a child process; if it dies with evidence of undefined behaviour,
+        // localise the killing call sequence with the journalled depth-first enumeration
+        let out_path = args.iter().position(|a| a == "--out").map(|i| args[i + 1].clone()).unwrap_or_else(|| "/dev/stdout".into());
+        let (ok, ub, why) = run_child(&["explore", &args[2], &args[3], "--out", &out_path]);
+        if ok {
+            return;
+        }
+        if !ub {
+            eprintln!("seq: exploration child failed for a machinery reason: {why}");
+            std::process::exit(2);
+        }
+        let thorough = args[3] == "thorough";
+        let scratch = std::env::var("MC_SCRATCH").unwrap_or_else(|_| std::env::temp_dir().to_string_lossy().to_string());
+        let n = model(thorough).inits.len();
+        let mut viols = vec![];
+        for init in 0..n {
+            let j = format!("{scratch}/seq-journal-{}-{init}.txt", std::process::id());
+            let (ok2, ub2, why2) = run_child(&["journal", &args[3], &init.to_string(), &j]);
+            if !ok2 && ub2 {
+                let txt = std::fs::read_to_string(&j).unwrap_or_default();
+                let last = txt.lines().last().unwrap_or("").to_string();
+                let acts: Vec<String> = last.split(';').filter(|s| !s.is_empty()).map(|s| s.to_string()).collect();
+                viols.push(json!({"key": "process-abort call-sequence", "detail": format!("init #{init} then {acts:?}: the process died: {why2}"), "index": acts.len(),
+                    "case": {"kind":"seq","thorough":thorough,"init":init,"actions":acts,"expect_death":true}}));
+            }
+            let _ = std::fs::remove_file(&j);
+            if !viols.is_empty() {
+                break;
+            }
+        }
+        let found = !viols.is_empty();
+        let rep = json!({
+            "property": args[2], "states": 1, "transitions": 1, "buckets": {"exploration child died (undefined behaviour in the subject)": 1}, "worst": {},
+            "samples": [{"note": "exploration aborted by the death of the child process", "why": why}],
+            "violations": viols, "bound": "aborted", "exhaustive": false, "rule": "see the non-aborted report", "assumptions": [], "extra": {},
+            "guards": [{"name": "the death of the exploration child could be localised to one call sequence", "ok": found}],
+            "wall_s": 0.0, "tier": args[3], "build": {"crate":"seq"},
+        });
+        std::fs::write(&out_path, serde_json::to_string_pretty(&rep).unwrap()).expect("write");
+        return;
+    }
+    if args.len() < 4 || args[1] != "explore" {
         eprintln!("usage: seq run <C07|C13> <quick|thorough> --out <file> | seq replay <file>");
         std::process::exit(2);
     }
@@ -534,7 +694,7 @@ fn main() {
     let det_ok = u1 == u2 || !c1.discoveries().is_empty();
     let lin_actions: Vec<String> = {
         let mut a = vec![];
-        m.actions(&m.inits[7], &mut a);
+        m.actions(&m.inits[8], &mut a);
         a.iter().map(act_str).collect()
     };
     let sample_state = format!("{:?}", m.inits[1]).chars().take(300).collect::<String>();
@@ -546,7 +706,7 @@ fn main() {
         "worst": {},
         "samples": [{"engine":"stateright BFS","initial_state_example": sample_state, "actions_from_a_LinearRgb_state": lin_actions}],
         "violations": viols,
-        "bound": format!("all call sequences of depth <= {} over {} initial images (7 YUV frames covering every subsampling/depth/storage of the covering config alphabet; float images 2x2, 3x1, 3x3{} over special values) with actions = every public conversion x covering config alphabet (7 YUV configs, 6 RGB label pairs), Rewrap through the public constructor, and at most {} Poke deviation (NaN, +-inf, -3e38, 1e-40 through data_mut())", m.max_depth, m.inits.len(), if thorough {", 4x4"} else {""}, m.max_devs),
+        "bound": format!("all call sequences of depth <= {} over {} initial images (8 YUV frames covering every subsampling/depth/storage of the covering config alphabet; float images 2x2, 3x1, 3x3{} over special values) with actions = every public conversion x covering config alphabet (8 YUV configs incl. one with Unspecified transfer/primaries, 7 RGB label pairs), Rewrap through the public constructor, two conversions chained on the live intermediate object (X -> Yuv(cfg) -> LinearRgb/Xyb, X -> Rgb(labels) -> LinearRgb), and at most {} Poke deviation (NaN, +-inf, -3e38, 1e-40 through data_mut())", m.max_depth, m.inits.len(), if thorough {", 4x4"} else {""}, m.max_devs),
         "exhaustive": true,
         "rule": "stateright explicit-state BFS; next_state rebuilds the real image, runs the real conversion inside catch_unwind and serialises the result; always-properties: no unsafe-precondition hook fires, no conversion panics, every reached image keeps its dimensions, every reached YUV image holds only valid codes and re-wraps, borrowed sources stay unmodified",
         "assumptions": ["depth and deviation bounds as stated; the full configuration product is covered stage by stage by engine E1"],
